@@ -369,8 +369,11 @@ def digitsVal (base : Nat) (dig : Char → Option Nat) : List Char → Nat → O
     | some d => digitsVal base dig cs (acc * base + d)
     | none => none
 
-/-- Rust `i32::from_str` restricted to what `pre_validate_point` lets through: an optional
-`+`/`-`, at least one ASCII digit, value within `i32`; result must be `> 0` -/
+/-- amcl's bound on the excess counter of a field element: `FEXCESS = 2^SH − 1`, `SH = 26` -/
+def FEXCESS : Nat := 67108863
+
+/-- the index token of `pre_validate_point`: Rust `i32::from_str` (an optional `+`/`-`, at least
+one ASCII digit, value within `i32`) and `0 < v ≤ FEXCESS` -/
 def parsePosI32 (t : List Char) : Option Nat :=
   let body := match t with
     | '+' :: rest => some rest
@@ -381,11 +384,13 @@ def parsePosI32 (t : List Char) : Option Nat :=
   | some [] => none
   | some ds =>
     match digitsVal 10 decDigit ds 0 with
-    | some v => if 0 < v ∧ v ≤ 2147483647 then some v else none
+    | some v => if 0 < v ∧ v ≤ FEXCESS then some v else none
     | none => none
 
-/-- `validate_hex`: every byte an ASCII hex digit (tokens are never empty) -/
-def parseHexTok (t : List Char) : Option Nat := digitsVal 16 hexDigit t 0
+/-- the residue token: at most `NLEN·BASEBITS/4 = 70` characters (what a `BIG` holds), every one
+an ASCII hex digit (`validate_hex`; tokens are never empty) -/
+def parseHexTok (t : List Char) : Option Nat :=
+  if t.length > 70 then none else digitsVal 16 hexDigit t 0
 
 /-- one `Fp` component as written: the excess counter and the raw residue -/
 structure RawFp where
@@ -520,16 +525,27 @@ def implG2Text (allowInf : Bool) (s : List Char) : Res TextPt :=
     else if !allowInf && g2AmclIsInf cs then .err
     else .ok ⟨cs⟩
 
+/-- `−p⁻¹ mod 2^280` -/
+def Nprime : Nat := 0x73839EB65373CCBA60808C92022379C45B843C6E371BA81104F6C808435E50D79435E5
+
+/-- amcl `FP::redc` = `BIG::monty` on the raw residue, exactly (no final subtraction):
+`(x + ((x·N') mod R)·p) / R`, `R = 2^280` — equal to `x·R⁻¹ mod p` or to that plus `p` -/
+def montyRedc (x : Nat) : Nat := (x + (x * Nprime % 2 ^ 280) * p) / 2 ^ 280
+
 /-- bytes written by `to_bytes` for a value decoded from text (`affine()` first; a value that
-`is_infinity` reports as the identity is written with its raw `x`, `y`) -/
+`is_infinity` reports as the identity is written with its raw `x`, `y` passed through `redc` only —
+possibly NOT reduced below `p`: the identity has many byte encodings) -/
 def g1TextBytes (t : TextPt) : Bytes :=
   let P := g1PtOfRaw t.raw
-  if g1AmclIsInf t.raw then g1BytesOfAffine P.x.a P.y.a
+  if g1AmclIsInf t.raw then
+    [4] ++ toBE 32 (montyRedc ((t.raw.getD 0 ⟨1, 0⟩).x)) ++ toBE 32 (montyRedc ((t.raw.getD 1 ⟨1, 0⟩).x)) ++
+      List.replicate 63 0
   else let a := toAffine P; g1BytesOfAffine a.1.a a.2.a
 
 def g2TextBytes (t : TextPt) : Bytes :=
   let P := g2PtOfRaw t.raw
-  if g2AmclIsInf t.raw then g2BytesOfAffine P.x P.y
+  if g2AmclIsInf t.raw then
+    ((List.range 4).map fun i => toBE 32 (montyRedc ((t.raw.getD i ⟨1, 0⟩).x))).flatten
   else let a := toAffine P; g2BytesOfAffine a.1 a.2
 
 /-- the property for the text forms of points: exact component count; every index a positive
